@@ -118,7 +118,9 @@ def displace(x0, kind, j, seed):
         return L2 @ L2.t() if kind == "spd" else L2
     e = [0.011 * _frac(0.6180339887 * (seed + 1) * (i + 1) + 0.37 * j) for i in range(3)]
     if kind == "heights4":  # ((t0,t1),(t2,t3)) with tip ages 0, .3, 0, .5: nodes (t0,t1), (t2,t3), root
-        h4 = 0.6 + 0.23 * ((2 * j + 1) % 5) + 0.013 * j + e[0]
+        # (t0,t1) lies below the sampling time of t3 in slice 1 (and every fifth slice): the slices of one
+        # batch interleave sampling and coalescent events differently
+        h4 = 0.35 + 0.23 * ((2 * j + 3) % 5) + 0.013 * j + e[0]
         h5 = 0.7 + 0.19 * ((3 * j) % 5) + 0.013 * j + e[1]
         return torch.tensor([h4, h5, max(h4, h5) + 0.4 + 0.07 * j + e[2]], dtype=x0.dtype)
     if kind == "heights3":  # ((t0,t1),t2) with tip ages 0, .2, 0
